@@ -35,7 +35,7 @@ func raceMain(args []string) int {
 	}
 	switch args[0] {
 	case "types":
-		b, _ := json.Marshal(map[string]interface{}{"types": racedrv.Types(), "balancers": racedrv.BalancerNames, "codecs": racedrv.CodecNames,
+		b, _ := json.Marshal(map[string]interface{}{"types": racedrv.Types(), "balancers": racedrv.BalancerNames, "codecs": racedrv.CodecNames, "versionProfiles": racedrv.VersionProfiles(),
 			"ext": extNames()})
 		fmt.Println(string(b))
 		return 0
